@@ -25,7 +25,8 @@ Reading guide.
   (`D`) and seen only through `DataOps`: `np.unique(X)` having one element (`const?`),
   `X.min() - EPSILON` (`lo`), `X.max() + EPSILON` (`hi`), `len(X)`.  Randomness of a resampling
   fit is part of the data argument (the harness fixes the global generator before every `fit`).
-* `Variant.asFound` is the code as it is: the option attributes read by a fit are the **instance's
+* `Variant` has three independent flags; `Variant.asFound` (all set) is the code as it is: the
+  option attributes read by a fit are the **instance's
   current ones**, which earlier fits have overwritten (`self.min/self.max` after the first
   non-constant fit of a `TruncatedGaussian` built without bounds; `self._sample_size` after the
   first non-constant fit of a `GaussianKDE` built without `sample_size`), and the four constant
@@ -58,6 +59,10 @@ inductive Check where
 structure ClassInfo where
   name : String
   module : String
+  /-- `univariate` / `multivariate` / `bivariate` -/
+  package : String
+  /-- `module.name` -/
+  qualname : String
   bases : List String
   ownInit : Bool
   /-- the class (in-package MRO) whose `__init__` is used. -/
@@ -72,7 +77,7 @@ structure ClassInfo where
   /-- `fit` assigns `self.fitted = True` exactly once, as its last statement. -/
   fittedLast : Bool
   guards : List (String × Guard)
-  deriving Repr
+  deriving DecidableEq, Repr
 
 def lookupGuard (ci : ClassInfo) (m : String) : Option Guard :=
   (ci.guards.find? fun g => g.1 == m).map (·.2)
@@ -95,9 +100,27 @@ def losesOptions (ci : ClassInfo) : Bool := !ci.storeArgs && !ci.params.isEmpty
 
 /-! ## univariate (`ScipyModel`) state and `fit` -/
 
-inductive Variant where
-  | asFound | repaired
+/-- which of the three recorded behaviours the modelled code has (they can be repaired independently):
+* `keepOverride`: a non-constant fit leaves the instance-level constant methods in place;
+* `rememberBounds`: the fit path reads `self.min/self.max` as left by earlier fits and writes them back;
+* `cacheSize`: the fit path reads `self._sample_size` as left by earlier fits and writes it back. -/
+structure Variant where
+  keepOverride : Bool
+  rememberBounds : Bool
+  cacheSize : Bool
   deriving DecidableEq, Repr
+
+/-- the code as it is. -/
+def Variant.asFound : Variant := ⟨true, true, true⟩
+/-- a fit reads the constructor's options, writes none back, and clears the constant methods. -/
+def Variant.repaired : Variant := ⟨false, false, false⟩
+
+@[simp] theorem Variant.asFound_keepOverride : Variant.asFound.keepOverride = true := rfl
+@[simp] theorem Variant.asFound_rememberBounds : Variant.asFound.rememberBounds = true := rfl
+@[simp] theorem Variant.asFound_cacheSize : Variant.asFound.cacheSize = true := rfl
+@[simp] theorem Variant.repaired_keepOverride : Variant.repaired.keepOverride = false := rfl
+@[simp] theorem Variant.repaired_rememberBounds : Variant.repaired.rememberBounds = false := rfl
+@[simp] theorem Variant.repaired_cacheSize : Variant.repaired.cacheSize = false := rfl
 
 /-- how the class's fit path treats the option attributes. -/
 inductive Kind where
@@ -215,9 +238,9 @@ self.fitted = True
 def fit (v : Variant) (ops : DataOps D V) (F : Fitters C V O P D) (s : UState C V O P) (x : D) :
     UState C V O P :=
   -- the option attributes this fit starts from
-  let mn := match v with | .asFound => s.min | .repaired => s.ctor.min
-  let mx := match v with | .asFound => s.max | .repaired => s.ctor.max
-  let ss := match v with | .asFound => s.sampleSize | .repaired => s.ctor.sampleSize
+  let mn := if v.rememberBounds then s.min else s.ctor.min
+  let mx := if v.rememberBounds then s.max else s.ctor.max
+  let ss := if v.cacheSize then s.sampleSize else s.ctor.sampleSize
   match ops.const? x with
   | some c =>
     ⟨s.cls, s.kind, s.ctor, true, some (F.fitConst s.cls (constSize s.kind ss (ops.len x)) x), some c, mn, mx, ss⟩
@@ -226,9 +249,9 @@ def fit (v : Variant) (ops : DataOps D V) (F : Fitters C V O P D) (s : UState C 
     let mx' := stepBound s.kind mx (ops.hi x)
     let ss' := stepSize s.kind ss (ops.len x)
     let p := F.fitFn s.cls (effOpts s.kind mn' mx' ss s.ctor.other) x
-    match v with
-    | .asFound => ⟨s.cls, s.kind, s.ctor, true, some p, s.override, mn', mx', ss'⟩
-    | .repaired => ⟨s.cls, s.kind, s.ctor, true, some p, none, mn, mx, ss⟩
+    ⟨s.cls, s.kind, s.ctor, true, some p, if v.keepOverride then s.override else none,
+     if v.rememberBounds then mn' else mn, if v.rememberBounds then mx' else mx,
+     if v.cacheSize then ss' else ss⟩
 
 /-- a history of `fit` calls. -/
 def fitAll (v : Variant) (ops : DataOps D V) (F : Fitters C V O P D) (s : UState C V O P) :
@@ -520,12 +543,8 @@ def Obj.afterFit (o : Obj Val St) (st : St) : Obj Val St := ⟨o.cls, o.stored, 
 
 end
 
-/-- lookup in a generated class list by bare name, by `module.name`, or by `package.name` for a
-    package that contains the defining module (`copulas.univariate.GaussianKDE`). -/
+/-- lookup in a generated class list by bare name or by `module.name`. -/
 def tableOf (classes : List ClassInfo) (n : String) : Option ClassInfo :=
-  classes.find? fun ci =>
-    ci.name == n || (ci.module ++ "." ++ ci.name) == n ||
-    ((n.splitOn ".").getLast? == some ci.name &&
-      (".".intercalate (n.splitOn ".").dropLast ++ ".").isPrefixOf (ci.module ++ "."))
+  classes.find? fun ci => ci.name == n || ci.qualname == n
 
 end CopVerif.Model.Lifecycle
